@@ -176,7 +176,7 @@ def proposal_lists(ctx, acc):
 
 def shard(ctx, acc):
     proposal_lists(ctx, acc)
-    total = 64 if ctx.quick else 1200
+    total = 64 if ctx.quick else 800
     n = [0]
 
     slow = [0]
